@@ -36,12 +36,55 @@ def setup(ctx):
     except t_lang.TranslateError as e:
         ctx.oblige("T-lang: language_names.cpp tables translated", False, "table", str(e))
         table = None
+    log_bad = []
+    try:
+        from translators import t_log
+        lg = t_log.regenerate(common.REPO, common.LEAN_DIR, common.write_if_changed)
+        log_bad = lg["bad"]
+        ctx.oblige("T-log: %d LOG_FMT calls scanned for side effects in their arguments" % lg["calls"], True, "table")
+    except Exception as e:          # TranslateError or an unreadable tree
+        ctx.oblige("T-log: LOG_FMT calls scanned", False, "table", str(e))
     ctx.lean_obligations()
     exe = common.build_repo(hooks=True)
+    if log_bad:
+        log_side_effect_search(ctx, exe, log_bad)
     ctx.trusted += ["hand-written models UncModel/Cli.lean (Args, main() routing) and UncModel/CheckMode.lean",
                     "translators/t_lang.py (regex over language_names.{h,cpp}, keywords.h)",
                     "python sandbox harness vlib/clibox.py (directory snapshots, argument generator)"]
     return exe, table
+
+
+def log_side_effect_search(ctx, exe, bad):
+    """C10_log_args_pure no longer holds: search the corpus (every test pair) for an input whose output depends on -L"""
+    from vlib import unc
+    pairs = unc.test_pairs()
+    words = {os.path.splitext(os.path.basename(f))[0] for f, _, _ in bad}
+
+    def rank(p):          # configs/inputs whose names mention the file of the offending LOG_FMT first
+        return 0 if any(w.split("_")[0] in p[1] or w.split("_")[0] in p[2] for w in words) else 1
+    pairs.sort(key=rank)
+
+    def one(p):
+        name, cfg, inp, lang = p
+        a = unc.run(exe, cfg, inp, lang, timeout=30)
+        b = unc.run(exe, cfg, inp, lang, extra=("-L", "A"), timeout=30)
+        return (p, a, b)
+    found = None
+    for k in range(0, min(len(pairs), 2400), 64):
+        for p, a, b in common.pmap(one, pairs[k:k + 64]):
+            if a["rc"] == 0 and b["rc"] == 0 and a["out"] != b["out"]:
+                found = p
+                break
+        if found:
+            break
+    what = "LOG_FMT argument with a side effect at %s" % ", ".join("%s:%d" % (f, ln) for f, ln, _ in bad[:3])
+    if found:
+        ctx.violation("%s: the formatted bytes of %s with %s differ between a plain run and a run with -L A" % (what, found[2], found[1]),
+                      {"input": found[2], "config": found[1], "lang": found[3], "cmd": "uncrustify -q -c <config> -f <input> [-L A]", "sites": bad[:5]},
+                      key=None, found_input=True)
+    else:
+        ctx.violation("%s (theorem C10_log_args_pure fails); no corpus input found whose output depends on -L" % what,
+                      {"theorem": "C10_log_args_pure", "sites": bad[:5]}, key=None, found_input=False)
 
 
 def make_template(base):
